@@ -490,6 +490,18 @@ impl Family for DiagnosticSpans {
                     out.violate(format!("c09/diagnostic/{}/note-span-outside-file-or-reversed", d.code), ctx(&format!("{what}: span {}:{}..{}:{} of file {tfi}", s.row, s.col, t.row, t.col)));
                     continue;
                 }
+                // both ends lie on their lines: a column is at most one past the last character of its row
+                obligations += 1;
+                // (the carriage return of a CRLF ending is a character of its row: slicec's doc-comment lines keep it)
+                let crlf = tr.text.contains("\r\n");
+                let width = |row: usize| lines.get(row - 1).map_or(0, |l| l.chars().count() + crlf as usize);
+                if s.col > width(s.row) + 1 || t.col > width(t.row) + 1 {
+                    out.violate(
+                        format!("c09/diagnostic/{}/{}-column-beyond-the-end-of-its-line", d.code, if what == "diagnostic" { "span" } else { "note-span" }),
+                        ctx(&format!("{what}: span {}:{}..{}:{} of file {tfi}, but row {} has {} characters and row {} has {}", s.row, s.col, t.row, t.col, s.row, width(s.row), t.row, width(t.row))),
+                    );
+                    continue;
+                }
                 // the header names the file and the start of the span
                 obligations += 1;
                 let header = format!(" --> string-{tfi}:{}:{}", s.row, s.col);
